@@ -46,7 +46,7 @@ pub fn replay(cases: &str, verdicts: &str) {
                 // Display prints the coefficients in lag order (they are stored reversed)
                 let phi = f64s(&c["phi"]);
                 let mut co = phi.clone(); co.reverse();
-                let ar = AR { p: phi.len(), coeffs: co, intercept: 0.5 };
+                let ar = { let mut a = AR::new(phi.len()); a.coeffs = co; a.intercept = 0.5; a };
                 let s = format!("{}", ar);
                 let lines: Vec<&str> = s.lines().collect();
                 let ok = lines.len() == phi.len() + 2 && lines[0].contains(&format!("AR({})", phi.len()))
